@@ -20,6 +20,7 @@ structure StepOK (s : State) (r : State × Decision) (adm : List Nat) : Prop whe
   rep_gone : ∀ x ∈ r.2.replies.map (·.op), x ∉ keysW r.1.pending
   keys_sub : ∀ x ∈ keysW r.1.pending, x ∈ keysW s.pending ∨ x ∈ adm
   covered : ∀ rp ∈ r.2.replies, rp.err = .ok → rp.mode = 1 → rp.target ≠ 0 ∧ rp.target ≤ r.1.hw
+  rep_mode : ∀ rp ∈ r.2.replies, rp.err = .ok → ∃ w, lookupW s.pending rp.op = some w ∧ w.mode = rp.mode
 
 theorem fenceLe_refl (s : State) : fenceLe s s := Or.inr ⟨rfl, Nat.le_refl _⟩
 
@@ -39,11 +40,14 @@ theorem StepOK.refl {s : State} (h : Inv s) {d : Decision} (hd : d.replies = [])
   rep_gone := by simp [hd]
   keys_sub := fun x hx => Or.inl hx
   covered := by simp [hd]
+  rep_mode := by simp [hd]
 
 /-- prefix a reply-free preparation step that keeps the pending keys -/
 theorem StepOK.pre {s s' : State} {r : State × Decision} {adm : List Nat}
     (hk : keysW s'.pending = keysW s.pending) (hhw : s.hw ≤ s'.hw)
-    (he : s'.epoch = s.epoch) (hl : s'.lepoch = s.lepoch) (h : StepOK s' r adm) : StepOK s r adm where
+    (he : s'.epoch = s.epoch) (hl : s'.lepoch = s.lepoch)
+    (hm : ∀ x w', lookupW s'.pending x = some w' → ∃ w, lookupW s.pending x = some w ∧ w.mode = w'.mode)
+    (h : StepOK s' r adm) : StepOK s r adm where
   inv := h.inv
   hw_mono := Nat.le_trans hhw h.hw_mono
   fence := by
@@ -55,6 +59,11 @@ theorem StepOK.pre {s s' : State} {r : State × Decision} {adm : List Nat}
   rep_gone := h.rep_gone
   keys_sub := fun x hx => hk ▸ h.keys_sub x hx
   covered := h.covered
+  rep_mode := by
+    intro rp hrp hok
+    obtain ⟨w', h1, h2⟩ := h.rep_mode rp hrp hok
+    obtain ⟨w, h3, h4⟩ := hm _ _ h1
+    exact ⟨w, h3, by rw [h4, h2]⟩
 
 theorem StepOK.decision {s a : State} {d d' : Decision} {adm : List Nat}
     (h : StepOK s (a, d) adm) (hr : d'.replies = d.replies) : StepOK s (a, d') adm where
@@ -66,6 +75,7 @@ theorem StepOK.decision {s a : State} {d d' : Decision} {adm : List Nat}
   rep_gone := by simpa [hr] using h.rep_gone
   keys_sub := h.keys_sub
   covered := by simpa [hr] using h.covered
+  rep_mode := by simpa [hr] using h.rep_mode
 
 /-- replacing pending map and order list by a consistent pair keeps the invariant -/
 theorem Inv.with_po {s : State} (h : Inv s) {p : List Waiter} {o : List Nat} (hpo : PO p o) :
@@ -84,7 +94,7 @@ theorem complete_ok {s : State} (h : Inv s) (order : List Nat) :
         (if s.order.isEmpty = true then sortAsc (keysW s.pending) else s.order) else order) = ord
     obtain ⟨ia, ib, ic, id, ie⟩ := completeLoop_spec s.hw ord s.pending
     have po' := h.po.remove ia (ib h.pend_nodup)
-    refine ⟨h.with_po po', Nat.le_refl _, fenceLe_of_eq rfl rfl, id h.pend_nodup, ic, ?_, ?_, ?_⟩
+    refine ⟨h.with_po po', Nat.le_refl _, fenceLe_of_eq rfl rfl, id h.pend_nodup, ic, ?_, ?_, ?_, ?_⟩
     · intro x hx hk
       exact ((ia x).mp hk).2 hx
     · intro x hx
@@ -92,6 +102,9 @@ theorem complete_ok {s : State} (h : Inv s) (order : List Nat) :
     · intro rp hrp _ hm
       obtain ⟨_, h2, h3⟩ := ie rp hrp
       exact ⟨h2, h3 hm⟩
+    · intro rp hrp _
+      obtain ⟨w, h1, h2, _⟩ := completeLoop_reflects s.hw ord s.pending rp hrp
+      exact ⟨w, h1, h2.symm⟩
 
 -- --------------------------------------------------------- failInflightAppend
 
@@ -103,7 +116,7 @@ theorem map_op_mk (err : Err) (l : List Nat) :
     simp only [List.map_cons, List.cons.injEq, true_and]
     exact ih
 
-theorem fail_ok {s : State} (h : Inv s) (err : Err) : StepOK s (failInflight s err) [] := by
+theorem fail_ok {s : State} (h : Inv s) (err : Err) (hne : err ≠ .ok) : StepOK s (failInflight s err) [] := by
   unfold failInflight
   split
   · exact StepOK.refl h rfl []
@@ -113,7 +126,7 @@ theorem fail_ok {s : State} (h : Inv s) (err : Err) : StepOK s (failInflight s e
     have po' := h.po.remove ia (ib h.pend_nodup)
     have hmap := map_op_mk err (failLoop inf.ops s.pending).2
     refine ⟨⟨h.ckpt_le, h.hw_le, h.match_le, po'.pn, po'.on, po'.iff, by simp⟩,
-            Nat.le_refl _, fenceLe_of_eq rfl rfl, ?_, ?_, ?_, ?_, ?_⟩
+            Nat.le_refl _, fenceLe_of_eq rfl rfl, ?_, ?_, ?_, ?_, ?_, ?_⟩
     · rw [hmap]; exact id h.pend_nodup
     · rw [hmap]; exact ic
     · rw [hmap]
@@ -126,6 +139,11 @@ theorem fail_ok {s : State} (h : Inv s) (err : Err) : StepOK s (failInflight s e
       obtain ⟨op, _, hop⟩ := hrp
       rw [← hop] at hm
       simp at hm
+    · intro rp hrp hok
+      simp only [List.mem_map] at hrp
+      obtain ⟨op, _, hop⟩ := hrp
+      rw [← hop] at hok
+      exact absurd hok hne
 
 -- ------------------------------------------------------------ ApplyAppendStored
 
@@ -133,7 +151,9 @@ theorem storedPre_ok {s : State} (h : Inv s) (inf : Inflight) (base last : Nat) 
     Inv (storedPre s inf base last) ∧
     keysW (storedPre s inf base last).pending = keysW s.pending ∧
     s.hw ≤ (storedPre s inf base last).hw ∧
-    (storedPre s inf base last).epoch = s.epoch ∧ (storedPre s inf base last).lepoch = s.lepoch := by
+    (storedPre s inf base last).epoch = s.epoch ∧ (storedPre s inf base last).lepoch = s.lepoch ∧
+    (∀ x w', lookupW (storedPre s inf base last).pending x = some w' →
+       ∃ w, lookupW s.pending x = some w ∧ w.mode = w'.mode) := by
   unfold storedPre
   dsimp only
   have hk := keysW_assignLoop (List.range' base inf.recs.length) inf.ops inf.counts 0 s.pending
@@ -141,6 +161,7 @@ theorem storedPre_ok {s : State} (h : Inv s) (inf : Inflight) (base last : Nat) 
     h.po.same_keys hk
   have h1 := h.ckpt_le
   have h2 := h.hw_le
+  have hmode := assignLoop_mode (List.range' base inf.recs.length) inf.ops inf.counts 0 s.pending
   split
   · -- leader: Progress[local] = LEO; AdvanceHW
     generalize hX : ({ s with pending := assignLoop (List.range' base inf.recs.length) inf.ops inf.counts 0 s.pending,
@@ -153,8 +174,8 @@ theorem storedPre_ok {s : State} (h : Inv s) (inf : Inflight) (base last : Nat) 
     have hm : ∀ e ∈ setP s.progress s.localNode (max s.leo last), e.2 ≤ max s.leo last :=
       setP_le (fun e he => Nat.le_trans (h.match_le e he) (Nat.le_max_left _ _)) (Nat.le_refl _)
     have hb' := hb (max s.leo last) hm (by arith)
-    exact ⟨⟨by arith, hb', hm, po'.pn, po'.on, po'.iff, by simp⟩, hk, hle, rfl, rfl⟩
-  · refine ⟨⟨h1, by arith, ?_, po'.pn, po'.on, po'.iff, by simp⟩, hk, Nat.le_refl _, rfl, rfl⟩
+    exact ⟨⟨by arith, hb', hm, po'.pn, po'.on, po'.iff, by simp⟩, hk, hle, rfl, rfl, hmode⟩
+  · refine ⟨⟨h1, by arith, ?_, po'.pn, po'.on, po'.iff, by simp⟩, hk, Nat.le_refl _, rfl, rfl, hmode⟩
     intro e he
     exact Nat.le_trans (h.match_le e he) (Nat.le_max_left _ _)
 
@@ -164,13 +185,13 @@ theorem stored_ok {s : State} (h : Inv s) (f : Fence) (base last : Nat) (err : E
   split
   · exact StepOK.refl h rfl []
   · split
-    · exact fail_ok h err
+    · next hne => exact fail_ok h err hne
     · split
       · exact StepOK.refl h rfl []
       · next inf _ =>
         dsimp only
-        obtain ⟨hi, hk, hhw, he, hl⟩ := storedPre_ok h inf base last
-        have hc := StepOK.pre hk hhw he hl (complete_ok hi inf.ops)
+        obtain ⟨hi, hk, hhw, he, hl, hmo⟩ := storedPre_ok h inf base last
+        have hc := StepOK.pre hk hhw he hl hmo (complete_ok hi inf.ops)
         exact StepOK.decision (d := (completeAppendWaiters (storedPre s inf base last) inf.ops).2) hc rfl
 
 -- --------------------------------------------------------- ApplyQuorumCommitted
@@ -179,7 +200,9 @@ theorem quorumPre_ok {s : State} (h : Inv s) (inf : Inflight) (first last : Nat)
     Inv (quorumPre s inf first last last) ∧
     keysW (quorumPre s inf first last last).pending = keysW s.pending ∧
     s.hw ≤ (quorumPre s inf first last last).hw ∧
-    (quorumPre s inf first last last).epoch = s.epoch ∧ (quorumPre s inf first last last).lepoch = s.lepoch := by
+    (quorumPre s inf first last last).epoch = s.epoch ∧ (quorumPre s inf first last last).lepoch = s.lepoch ∧
+    (∀ x w', lookupW (quorumPre s inf first last last).pending x = some w' →
+       ∃ w, lookupW s.pending x = some w ∧ w.mode = w'.mode) := by
   unfold quorumPre
   dsimp only
   have hk := keysW_assignLoop (List.range' first inf.recs.length) inf.ops inf.counts 0 s.pending
@@ -190,7 +213,8 @@ theorem quorumPre_ok {s : State} (h : Inv s) (inf : Inflight) (first last : Nat)
   have hg : getP s.progress s.localNode ≤ s.leo := getP_le h.match_le _
   have hm : ∀ e ∈ setP s.progress s.localNode (max (getP s.progress s.localNode) last), e.2 ≤ max s.leo last :=
     setP_le (fun e he => Nat.le_trans (h.match_le e he) (Nat.le_max_left _ _)) (by arith)
-  exact ⟨⟨by arith, by arith, hm, po'.pn, po'.on, po'.iff, by simp⟩, hk, by arith, rfl, rfl⟩
+  exact ⟨⟨by arith, by arith, hm, po'.pn, po'.on, po'.iff, by simp⟩, hk, by arith, rfl, rfl,
+         assignLoop_mode (List.range' first inf.recs.length) inf.ops inf.counts 0 s.pending⟩
 
 theorem quorum_ok {s : State} (h : Inv s) (f : Fence) (first last hw : Nat) (err : Err) :
     StepOK s (applyQuorumCommitted s f first last hw err) [] := by
@@ -198,20 +222,20 @@ theorem quorum_ok {s : State} (h : Inv s) (f : Fence) (first last hw : Nat) (err
   split
   · exact StepOK.refl h rfl []
   · split
-    · exact fail_ok h err
+    · next hne => exact fail_ok h err hne
     · split
       · exact StepOK.refl h rfl []
       · next inf _ =>
         dsimp only
         split
-        · exact fail_ok h .conflict
+        · exact fail_ok h .conflict (by decide)
         · next hc =>
           have hhw : hw = last := by
             simp only [Bool.or_eq_true, not_or] at hc
             simpa using hc.2
           subst hhw
-          obtain ⟨hi, hk, hhw, he, hl⟩ := quorumPre_ok h inf first hw
-          exact StepOK.pre hk hhw he hl (complete_ok hi inf.ops)
+          obtain ⟨hi, hk, hhw, he, hl, hmo⟩ := quorumPre_ok h inf first hw
+          exact StepOK.pre hk hhw he hl hmo (complete_ok hi inf.ops)
 
 -- ------------------------------------------------------------- ApplyFollowerAck
 
@@ -245,7 +269,14 @@ theorem followerAck_ok {s : State} (h : Inv s) (follower mtch : Nat) (hle : mtch
   split
   · exact StepOK.refl h rfl []
   · obtain ⟨hi, hk, hhw, he, hl⟩ := ackPre_ok h follower mtch hle
-    exact StepOK.pre hk hhw he hl (complete_ok hi _)
+    have hp : (ackPre s follower mtch).pending = s.pending := by
+      unfold ackPre
+      split
+      · obtain ⟨hv, heq, _⟩ := advanceHW_spec ({ s with progress := setP s.progress follower mtch } : State)
+        rw [heq]
+      · obtain ⟨hv, heq, _⟩ := advanceHW_spec s
+        rw [heq]
+    exact StepOK.pre hk hhw he hl (fun x w' hx => ⟨w', by rw [← hp]; exact hx, rfl⟩) (complete_ok hi _)
 
 theorem reactorAck_ok {s : State} (h : Inv s) (key epoch lepoch follower mtch : Nat) :
     StepOK s (reactorAck s key epoch lepoch follower mtch) [] := by
@@ -293,7 +324,7 @@ theorem cancel_ok {s : State} (h : Inv s) (op : Nat) : StepOK s (cancelAppendWai
       rw [mem_keysW_eraseW]
       simp
     have po' := h.po.remove hk (nodup_keysW_eraseW op h.pend_nodup)
-    refine ⟨h.with_po po', Nat.le_refl _, fenceLe_of_eq rfl rfl, by simp, by simp, by simp, ?_, by simp⟩
+    refine ⟨h.with_po po', Nat.le_refl _, fenceLe_of_eq rfl rfl, by simp, by simp, by simp, ?_, by simp, by simp⟩
     intro x hx
     exact Or.inl ((hk x).mp hx).1
 
@@ -307,7 +338,7 @@ theorem abort_ok {s : State} (h : Inv s) (batch : Nat) : StepOK s (abortAppendBa
     · obtain ⟨ia, ib⟩ := foldl_eraseW_spec inf.ops s.pending
       have po' := h.po.remove ia (ib h.pend_nodup)
       refine ⟨⟨h.ckpt_le, h.hw_le, h.match_le, po'.pn, po'.on, po'.iff, by simp⟩,
-              Nat.le_refl _, fenceLe_of_eq rfl rfl, by simp, by simp, by simp, ?_, by simp⟩
+              Nat.le_refl _, fenceLe_of_eq rfl rfl, by simp, by simp, by simp, ?_, by simp, by simp⟩
       intro x hx
       exact Or.inl ((ia x).mp hx).1
 
@@ -331,7 +362,7 @@ theorem propose_ok {s : State} (h : Inv s) (batch : Nat) (ws : List WaiterCmd) :
             · dsimp only
               obtain ⟨po', hsub⟩ := addWaiters_spec ws s.pending s.order h.po
               refine ⟨⟨h.ckpt_le, h.hw_le, h.match_le, po'.pn, po'.on, po'.iff, ?_⟩,
-                      Nat.le_refl _, fenceLe_of_eq rfl rfl, by simp, by simp, by simp, hsub, by simp⟩
+                      Nat.le_refl _, fenceLe_of_eq rfl rfl, by simp, by simp, by simp, hsub, by simp, by simp⟩
               intro i hi
               simp only [Option.some.injEq] at hi
               subst hi
@@ -380,7 +411,8 @@ theorem meta_ok {s : State} (h : Inv s) (m : Meta) : StepOK s (applyMeta s m) []
         StepOK s (metaInstall s0 m) [] := by
       intro s0 h0 hhw hsub
       obtain ⟨hi, e1, e2, e3, e4, e5⟩ := metaInstall_ok h0 m
-      refine ⟨hi, by rw [e1, hhw]; exact Nat.le_refl _, ?_, by simp [e5], by simp [e5], by simp [e5], ?_, by simp [e5]⟩
+      refine ⟨hi, by rw [e1, hhw]; exact Nat.le_refl _, ?_, by simp [e5], by simp [e5], by simp [e5], ?_,
+              by simp [e5], by simp [e5]⟩
       · unfold fenceLe
         rw [e3, e4]
         exact hf
